@@ -54,7 +54,7 @@ def interp_run(model_bytes, timeout=30):
         rng = np.random.default_rng(0)
         for d in it.get_input_details():
           if d["dtype"] == np.float32:
-            v = rng.normal(size=d["shape"]).astype(np.float32)
+            v = np.abs(rng.normal(size=d["shape"])).astype(np.float32) + np.float32(0.1)
           else:
             v = np.zeros(d["shape"], d["dtype"])
           it.set_tensor(d["index"], v)
@@ -64,7 +64,7 @@ def interp_run(model_bytes, timeout=30):
           run = it.get_signature_runner(key)
           feeds = {}
           for name, d in run.get_input_details().items():
-            feeds[name] = (rng.normal(size=d["shape"]).astype(np.float32) if d["dtype"] == np.float32
+            feeds[name] = (np.abs(rng.normal(size=d["shape"])).astype(np.float32) + np.float32(0.1) if d["dtype"] == np.float32
                            else np.zeros(d["shape"], d["dtype"]))
           res = run(**feeds)
           if len(res) != len(it.get_signature_list()[key]["outputs"]):
